@@ -37,7 +37,7 @@ Definition cm_step (c : cm_cfg) (s : cm_state) (k : cm_call) : res (cm_state * u
   | CmRemove h m => do s' <- cm_remove s h m; Ok (s', tt)
   end.
 Inductive cm_query := MqModules (h : hook) | MqIsRegistered (h : hook) (m : addr).
-Inductive cm_ans := MaList (l : list addr) | MaBool (b : bool).
+Inductive cm_ans := MaList (l : list addr) | MaBool (b : bool) | MaTrap.
 Definition cm_answer (s : cm_state) (q : cm_query) : cm_ans :=
   match q with
   | MqModules h => MaList (cm_modules s h)
@@ -47,6 +47,7 @@ Definition cm_ans_eqb (a b : cm_ans) : bool :=
   match a, b with
   | MaList x, MaList y => list_eqb N.eqb x y
   | MaBool x, MaBool y => Bool.eqb x y
+  | MaTrap, MaTrap => true
   | _, _ => false
   end.
 
@@ -109,7 +110,7 @@ Definition ic_step (s : ic_state) (k : ic_call) : res (ic_state * option cid) :=
   | IcRemove i => do s' <- ic_remove s i; Ok (s', None)
   end.
 Inductive ic_query := JqClaim (i : cid) | JqByTopic (t : N).
-Inductive ic_ans := JaClaim (r : res claim) | JaIds (l : list cid).
+Inductive ic_ans := JaClaim (r : res claim) | JaIds (l : list cid) | JaTrap.
 Definition ic_answer (s : ic_state) (q : ic_query) : ic_ans :=
   match q with
   | JqClaim i => JaClaim (ic_get_claim s i)
@@ -119,5 +120,6 @@ Definition ic_ans_eqb (a b : ic_ans) : bool :=
   match a, b with
   | JaClaim x, JaClaim y => res_eqb claim_eqb x y
   | JaIds x, JaIds y => list_eqb cid_eqb x y
+  | JaTrap, JaTrap => true
   | _, _ => false
   end.
